@@ -5,7 +5,8 @@ CONFIG = {'gen': ['SmbCommands'],
          'the extracted programs (length/count fields made to agree with their buffers; boundary-biased integers; byte-distinct values; '
          'nested values in their domain; every buffer format where Marshal sets none; for AndX commands an AndX block set through SetAndX '
          'in two cases of three) -> marshal, unmarshal into a fresh command, compare every field and the AndX block, re-marshal, compare '
-         'bytes (smb.rt); complement one fixed-width field and compare the changed byte range with its slot (smb.slot); unconstrained '
+         'bytes (smb.rt; one case in four decodes into a receiver that holds the field values of another generated message: nothing of it '
+         'may survive); complement one fixed-width field and compare the changed byte range with its slot (smb.slot); unconstrained '
          'assignments (tie only). distinct = distinct line; non-trivial = the implementation produced a value In half of the smb.rt cases '
          'the bytes are decoded twice into the same command object (the second decode must show the second message only). smb.dialects: '
          'the Dialects list as a value of its own (identifiers with high bytes; half of the decodes into a used value): Marshal, '
@@ -22,29 +23,35 @@ CONFIG = {'gen': ['SmbCommands'],
               'a go/ast translator; executable IR semantics tied to the Go code by differential correspondence on all 114 commands; '
               'round-trip oracle on the same inputs',
  'level_text': 'The Marshal and Unmarshal bodies of all 115 command structures are re-translated from /repo into a small imperative IR on '
-               'every run; the kernel decides (decide +kernel) that exactly 90 structures satisfy Mirror (same slots, order, widths, byte '
+               'every run; the kernel decides (decide +kernel) that exactly 96 structures satisfy Mirror (same slots, order, widths, byte '
                'order, length dependencies; no field changed after it is emitted; offset reset between blocks; lengths read before their '
                'buffers; guards no larger than the reads they protect; every declared field on the wire; for the AndX commands the AndX '
                'block read from the head of the parameter stream and exactly its four bytes cut off before the first field: andx_consumed) '
-               'and that the structural round-trip defects are exactly the 15 recorded ones (non_mirror_commands, '
-               'known_roundtrip_findings, command_count). The generic soundness theorem is proved for all field values: mirror_roundtrip '
-               '(Mirror c -> LawfulCodecs C T -> consistent C c v -> decodeCmd (encodeCmd v) = ok d with every declared field, and the '
-               'AndX block of an AndX command, equal to the sender after Marshal), with its layers marshal_is_layout / '
-               'unmarshal_reads_layout, the re-encoding corollary mirror_reencode, slot_locality, the instance std_lawful for the C06 '
-               'models, and smb_roundtrip / smb_reencode for the 90 regenerated Mirror commands (10 of the 16 AndX commands). The IR '
-               'semantics (runM/runU/encodeCmd/decodeCmd) is executed by the driver on the same field assignments as the real code for all '
-               '114 factory-reachable commands, and the real code is compared with the round-trip specification (decode(encode v) = v, '
-               're-encode identical, slot locality) on internally consistent assignments. The loop fragment (MirrorLoops: matching loop '
-               'pairs over list fields — range loop against a loop counted by a field read before it or running over a fixed array —, one '
-               "optional trailing parameter integer under 'WordCount tells which', padding arithmetic on lengths already read, a last read "
-               'without advance) is proved the same way: mirror_loops_roundtrip, mirror_loops_reencode (codec laws on the element types '
-               "too; consistent asks list elements to be fixed points of their Marshal; receiverFits: the receiver's fixed arrays have the "
-               "sender's length and an optional integer the sender holds as zero is zero — optional_stale_counterexample shows the stale "
-               'value surviving otherwise), smb_loops_roundtrip / smb_loops_reencode for the 98 regenerated MirrorLoops commands '
-               '(loop_mirror_commands: LockingAndxRequest, OpenAndxRequest, SessionSetupAndxRequest, SessionSetupAndxResponse, '
-               'TransactionRequest, WriteAndxRequest, WriteMpxRequest, WriteRawRequest; mirror_loops_extends; mirror_loops_types_lawful). '
-               'For the 17 commands outside (non_mirror_loops_commands: 13 recorded structural findings, whole-block / unchecked decodes, '
-               'WriteRequest) the round trip is decided by the correspondence runs only.',
+               'and that the structural round-trip defects are exactly the 2 recorded ones (non_mirror_commands, known_roundtrip_findings, '
+               'command_count; thirteen more were repaired in the repository, fixes/C04-*.diff, and left the list). A nested value decoded '
+               'from the whole block right behind offset = 0 is read in the normal form blk[offset:] (normWhole; go_normWhole: the run is '
+               'the same). The generic soundness theorem is proved for all field values: mirror_roundtrip (Mirror c -> LawfulCodecs C T -> '
+               'consistent C c v -> decodeCmd (encodeCmd v) = ok d with every declared field, and the AndX block of an AndX command, equal '
+               'to the sender after Marshal), with its layers marshal_is_layout / unmarshal_reads_layout, the re-encoding corollary '
+               'mirror_reencode, slot_locality, the instance std_lawful for the C06 models, and smb_roundtrip / smb_reencode for the 96 '
+               'regenerated Mirror commands (10 of the 16 AndX commands). The IR semantics (runM/runU/encodeCmd/decodeCmd) is executed by '
+               'the driver on the same field assignments as the real code for all 114 factory-reachable commands, and the real code is '
+               'compared with the round-trip specification (decode(encode v) = v, re-encode identical, slot locality) on internally '
+               'consistent assignments. The loop fragment (MirrorLoops: matching loop pairs over list fields — range loop against a loop '
+               'counted by a field read before it or running over a fixed array —, one optional trailing parameter integer or array of '
+               "integers, reset by Unmarshal and then read under 'WordCount tells which', padding arithmetic on lengths already read, a "
+               'last read without advance) is proved the same way: mirror_loops_roundtrip, mirror_loops_reencode (codec laws on the '
+               "element types too; consistent asks list elements to be fixed points of their Marshal; receiverFits: the receiver's fixed "
+               "arrays have the sender's length — nothing is asked about optional fields any more: optional_stale_reset, the former "
+               'optional_stale_counterexample), smb_loops_roundtrip / smb_loops_reencode for the 109 regenerated MirrorLoops commands, all '
+               '16 AndX commands among them (loop_mirror_commands: LockAndReadResponse, LockingAndxRequest, OpenAndxRequest, '
+               'OpenAndxResponse, QueryInformationResponse, ReadRawRequest, SessionSetupAndxRequest, SessionSetupAndxResponse, '
+               'TransactionRequest, WriteAndCloseRequest, WriteAndxRequest, WriteMpxRequest, WriteRawRequest; mirror_loops_extends; '
+               'mirror_loops_types_lawful). For the 6 commands outside (non_mirror_loops_commands: FindResponse / FindUniqueResponse with '
+               'the recorded 43-byte window, NegotiateRequest — Dialects reads to the end of its input —, NegotiateResponse — '
+               'null-terminated strings —, RenameRequest — unchecked decode —, WriteRequest) the round trip is decided by the '
+               'correspondence runs only. slot_locality reads the layout through layoutZ (literal terminator bytes in the data block '
+               'passed over, a range loop over an integer array one slot of variable width), 224 command/field pairs.',
  'level_note': 'Trusted: Lean kernel; axioms propext, Classical.choice, Quot.sound; the extractor and the IR semantics are tied to the Go '
                'code by differential testing (bounded); C06 models of nested types; known findings are recognised by Lean predicates on '
                'the extracted programs, one key per command.'}
